@@ -251,7 +251,7 @@ func checkC26Run(w *World, r *Run, rule string, fn *ssa.Function, logFn *types.F
 	r.Check(len(rets) == 0, rule, cons+": COMPLETE after fn", fn.Pos(), "every path after fn(ctx) logs PhaseComplete with fn's error", "a return is reachable after fn(ctx) without a COMPLETE record carrying its error")
 	retOK := true
 	for _, ret := range returnsOf(fn) {
-		if len(ret.Results) != 1 || !sameValue(ret.Results[0], errVal) {
+		if len(ret.Results) != 1 || !sameValue(retResult(ret, 0), errVal) {
 			retOK = false
 		}
 	}
